@@ -304,6 +304,8 @@ def run(ctx):
                        "__init__: weekday argument")
     from ..rules_common import check_presence_tests, ARG_SCOPE
     check_presence_tests(ctx, "C03.PRESENCE", classes=ARG_SCOPE.get("C03", []))
+    from ..rules_common import check_param_rebinding
+    check_param_rebinding(ctx, "C03.PARAMS", classes=ARG_SCOPE.get("C03", []))
 
 
 def check_weekday_table(ctx, add, rname):
